@@ -72,11 +72,11 @@ func (prop) Info() fw.Info {
 			"`same model` = proto.Equal modules: repetition k runs on a proto.Clone of repetition k-1's input (a generator that changes its input is detected by proto.Equal against a pristine copy and then gets a fresh clone every time); the clones differ only in the internal layout of their Go maps, exactly as two parses or two decodes of the same file do",
 			"Go <= 1.23 map iteration starts at a random bucket and a random in-bucket offset; for a map of n <= 8 entries only n rotations of one slot order occur, and a 2-entry map iterates in the minority order with probability 1/8. Chained cloning re-inserts the entries in the previous iteration order, so over 12 repetitions an order dependence over >= 2 entries stays hidden with probability < 0.06 per invocation for n = 2 and < 0.001 for n >= 3; with 3 processes the cross-process half alone would miss a 3-entry dependence 42% of the time — it is there to catch per-process state (hash seeds, time, temp names), not map order",
 			"the protobuf text/JSON encoders add build-dependent whitespace (detrand); it is a function of the binary, so repetitions within one binary are comparable, in-process output is never compared with CLI output",
-			"stderr of the CLI (logrus timestamps) is not compared; exit status, stdout and every file written below the output directory are",
+			"stderr of the CLI (logrus timestamps) is not compared; exit status, stdout and every file written below the output directory are; a command whose `sysl` binary changed on disk between its first and last process (a rebuild by a concurrent job) is not judged (counter process_comparisons_discarded_binary_changed)",
 			"Race is false (measured in this sandbox with the -race worker: a model case 67-97 s instead of 18-29 s, a spanner-export case 202 s instead of 43 s; the quick tier would take > 10 min instead of 2.5-3.5): shared state between repetitions is still observed through its effect on the output (repetition k > 0 would differ from repetition 0), and the race detector already watches the compiler under C05/C06/C07",
 			"Mermaid: only the model-dependent half (pkg/mermaid/*/Generate*) is run; the SVG step needs a headless browser. GenerateMultipleAppIntegrationDiagram and GenerateEndpointAnalysisDiagram are library entry points without a command",
 		},
-		CaseTimeout: 600,
+		CaseTimeout: 900,
 		SetFloors:   map[string]int{"generators": 30},
 		CountFloors: map[string]int{"repetitions": 10000, "outputs_compared": 9000, "bytes_compared": 100 << 20, "process_runs": 400,
 			"wide_models_pb": 15, "wide_models_sd": 10, "wide_models_ints": 10, "wide_models_datamodel": 15, "wide_models_export": 15, "wide_models_db-scripts": 3, "wide_models_relmod": 2, "wide_docs_import": 8},
